@@ -278,13 +278,26 @@ struct C09 : Prop {
 			for (size_t i = 0; i < s.size(); i++) if (s[i].is_str() && relogged.count(s[i].s)) relogin_cmds++;
 			if (fn == "set_train_peripheral" && s[0].is_str() && manual_trains.count(s[0].s)) manual_bits_used++;
 		}
-		// now the command's own optimistic effects
-		ingest(e);
-		if (o.ret == 0) {
+		// now the command's own optimistic effects: they take place when the command runs, i.e. before any answer to its message
+		// (the calling thread may be descheduled inside the call and return only after the answer was processed)
+		bool applied = o.ret != 0;
+		auto effect = [&]() {
+			if (applied) return;
+			applied = true;
 			const J &s = (*o.op)["s"];
-			if (fn == "switch_point" || fn == "set_signal") model.set_dcc_state_id(s[0].str(), s[1].str());
+			if (fn == "switch_point" || fn == "set_signal") {
+				// (the CS_ACCESSORY messages of the command itself do not clear the aspect id the command has just set)
+				int ncs = 0; for (auto &m : x.msgs) if (m.type == MSG_CS_ACCESSORY) ncs++;
+				if (ncs) model.pending_hl[s[0].str()] += ncs;
+				model.set_dcc_state_id(s[0].str(), s[1].str());
+			}
 			if (fn == "request_reverser_state") model.request_reverser(s[0].str());
-		}
+		};
+		size_t first_own = o.wire_before;
+		on_wire = [&](const ref::Msg &) { if (wire_pos >= first_own) effect(); };
+		ingest(e);
+		on_wire = nullptr;
+		effect();
 	}
 
 	// Concurrent commands: all train setters hold bidib_trains_rwlock exclusively from reading the state to sending, so the order of
